@@ -719,7 +719,13 @@ func (runInfo *runInfoStruct) invokeMakeExpr(expr *ast.MakeExpr) {
 			runInfo.rv = nilValue
 			return
 		}
-		runInfo.rv = reflect.MakeSlice(t, aLen, cap)
+		if !runInfo.options.Debug {
+			// captures panic of an impossible size
+			defer recoverFunc(runInfo)
+		}
+		runInfo.rv = nilValue
+		newSlice := reflect.MakeSlice(t, aLen, cap)
+		runInfo.rv = newSlice
 		return
 	case ast.TypeChan:
 		aLen := 0
@@ -736,7 +742,13 @@ func (runInfo *runInfoStruct) invokeMakeExpr(expr *ast.MakeExpr) {
 			runInfo.rv = nilValue
 			return
 		}
-		runInfo.rv = reflect.MakeChan(t, aLen)
+		if !runInfo.options.Debug {
+			// captures panic of an impossible size
+			defer recoverFunc(runInfo)
+		}
+		runInfo.rv = nilValue
+		newChan := reflect.MakeChan(t, aLen)
+		runInfo.rv = newChan
 		return
 	}
 
